@@ -118,8 +118,10 @@ def a(ctx):
     ci = ctx.prog.cls("numbers.codes.Code")
     for name, (lo, hi) in RFC_CODE_CLASSES.items():
         got = preds[name]
-        ctx.ob("Code.%s covers exactly %s..%s (RFC 7252 section 12.1)" % (name, lo, hi), (got[0], got[1]) == (lo, hi), ci.methods[name], ci.methods[name].node,
-               construct="Code.%s" % name, detail="extracted interval %s..%s" % got)
+        want = set(range(lo, hi + 1))
+        diff = sorted(set(got) ^ want)
+        ctx.ob("Code.%s covers exactly %s..%s (RFC 7252 section 12.1)" % (name, lo, hi), not diff, ci.methods[name], ci.methods[name].node,
+               construct="Code.%s" % name, detail="differs for codes %s" % diff[:8] if diff else "256 codes evaluated")
     fi = ctx.prog.func(MM + "dispatch_message")
     m = params(fi)[0]
     ctx.ob("dispatch_message is atomic (plain def)", is_plain_sync(fi), fi, fi.node, construct="def dispatch_message")
@@ -483,6 +485,16 @@ def g(ctx):
     ctx.ob("both outcomes exist", saw_self and saw_copy, fi, fi.node, construct="def as_response_address")
 
 
+@R.clause("C10.h", "'unmatched' means what it says: a token is registered and retired under one and the same key (shared with C02.a / C02.c)")
+def h_shared(ctx):
+    """Whether a confirmable response is acknowledged or Reset depends on TokenManager.process_response finding the
+    token.  An independently written breaking change registered a multicast request under (token, None) but armed the
+    clean-up for (token, remote): the retired token stayed 'matched' and a late CON response was ACKed instead of Reset."""
+    from . import c02
+    c02.a(ctx)
+    c02.c(ctx)
+
+
 F_MM = "aiocoap/messagemanager.py"
 R.seed("C10.a", F_MM, "        elif message.code.is_request() and message.mtype in (CON, NON):", "        elif message.code.is_request() and message.mtype in (CON,):", "NON requests ignored")
 R.seed("C10.a", F_MM, "                if message.mtype == CON and not message.remote.is_multicast_locally:", "                if message.mtype == CON:", "Reset also on multicast")
@@ -492,6 +504,7 @@ R.seed("C10.a", F_MM, "        if message.code is EMPTY and message.mtype is CON
 R.seed("C10.a", F_MM, "        elif message.code.is_response() and message.mtype in (CON, NON, ACK):", "        elif message.code.is_response() and message.mtype in (CON, NON, ACK, RST):", "response in RST processed")
 R.seed("C10.a", F_MM, "                if message.mtype is CON:\n                    self._send_empty_ack(", "                if message.mtype in (CON, NON):\n                    self._send_empty_ack(", "NON responses acknowledged")
 R.seed("C10.a", "aiocoap/numbers/codes.py", "return True if (self >= 1 and self < 32) else False", "return True if (self >= 1 and self < 31) else False", "code 0.31 not a request")
+R.seed("C10.a", "aiocoap/numbers/codes.py", "return True if (self >= 1 and self < 32) else False", "return self.class_ == 0", "EMPTY (0.00) counts as a request: empty ACK/RST go through the duplicate filter")
 R.seed("C10.b", F_MM, "rst = Message(_mtype=RST, _mid=message.mid, code=EMPTY, payload=b\"\")", "rst = Message(_mtype=RST, _mid=self._next_message_id(), code=EMPTY, payload=b\"\")", "Reset with a fresh mid")
 R.seed("C10.b", F_MM, "                    rst.remote = message.remote.as_response_address()", "                    rst.remote = message.remote", "Reset from the multicast address")
 R.seed("C10.b", F_MM, "        ack.mid = mid\n", "        ack.mid = self._next_message_id()\n", "ACK with a fresh mid")
@@ -508,3 +521,5 @@ R.seed("C10.d", F_MM, "                    new_message = Message(code=EMPTY, mid
 R.seed("C10.f", F_MM, "        if message.mtype == CON and message.remote.is_multicast:\n            raise error.ConToMulticast\n\n        if message.mid is None:\n            message.mid = self._next_message_id()\n\n", "        if message.mid is None:\n            message.mid = self._next_message_id()\n\n", "test removed")
 R.seed("C10.g", "aiocoap/transports/udp6.py", "        if not self.is_multicast_locally:\n            return self", "        if self.is_multicast_locally:\n            return self", "inverted")
 R.seed("C10.g", "aiocoap/transports/udp6.py", "        return type(self)(self.sockaddr, self.interface)\n", "        return type(self)(self.sockaddr, self.interface, pktinfo=self.pktinfo)\n", "local address kept")
+
+R.seed("C10.h", "aiocoap/tokenmanager.py", "        request.on_interest_end(\n            functools.partial(self.outgoing_requests.pop, key, None)\n        )\n", "        request.on_interest_end(\n            functools.partial(self.outgoing_requests.pop, (msg.token, msg.remote), None)\n        )\n", "multicast request cleaned up under another key than it is registered under")
